@@ -64,6 +64,8 @@ def cases(tier, seed):
             r = gen.rng_for(seed, PROP, "long", j + i)
             hs.append([r.choice(names) for _ in range(r.randint(4, 9))])
         out.append({"kind": "long", "histories": hs, "seed": seed})
+    for j in range(0, 48 if tier == "quick" else 2400, 12):
+        out.append({"kind": "dynamic-churn", "from": j, "count": 12, "seed": seed})
     ndyn = 60 if tier == "quick" else 4000
     for j in range(0, ndyn, 10):
         out.append({"kind": "dynamic", "from": j, "count": 10, "seed": seed})
@@ -298,6 +300,51 @@ def execute(mat, ctx):
             got = in_child(lambda: mk_and_query(True))
             judge(ctx, seed, [gen.class_name(prime_with) if prime_with in gen.concrete_kit_classes() else prime_with.__name__],
                   "Dyn%d(%s,%s)%s" % (j, pb.__name__, rb.__name__, sig), got, base, extra="dynamic-subclass-defined-after-priming")
+    elif kind == "dynamic-churn":
+        # run-time subclasses that come and go in one interpreter: each is created, used once and dropped (and collected) before
+        # the next one is created; every answer is compared with the same class created and queried first in a fresh interpreter
+        import gc
+        from moclo.kits import ytk, cidar, ecoflex, moclo as mk
+
+        bases = [(ytk.YTKPart, ytk.YTKEntry), (cidar.CIDARPart, cidar.CIDAREntry), (ecoflex.EcoFlexPart, ecoflex.EcoFlexEntry),
+                 (mk.MoCloPart, mk.MoCloEntry), (ytk.YTKPart, ytk.YTKCassetteVector), (mk.MoCloPart, mk.MoCloCassette)]
+        specs = []
+        for j in range(mat["from"], mat["from"] + mat["count"]):
+            rng = gen.rng_for(seed, PROP, "churn", j)
+            pb, rb = bases[rng.randrange(len(bases))]
+            specs.append((j, pb, rb, (gen.rand_dna(rng, 4), gen.rand_dna(rng, 4))))
+
+        def make(j, pb, rb, sig):
+            return type(str("Churn%d" % j), (pb, rb), {"signature": sig})
+
+        def texts_of(spec):
+            j, pb, rb, sig = spec
+            r2 = gen.rng_for(seed, PROP, "churnprobe", j)
+            out = []
+            for src in (make(*spec), rb):
+                t = gen.instance(r2, src.structure(), run_max=12) + gen.rand_dna(r2, 12)
+                out.append(rot_left(t, r2.randrange(len(t))))
+            return out
+
+        texts = [in_child(lambda sp=sp: texts_of(sp)) for sp in specs]
+        bases_ans = [in_child(lambda sp=sp, t=t: answer(seed, make(*sp), t)) for sp, t in zip(specs, texts)]
+
+        def churn():
+            out = []
+            for sp, t in zip(specs, texts):
+                D = make(*sp)
+                out.append(answer(seed, D, t))
+                del D
+                gc.collect()
+            return out
+
+        got = in_child(churn)
+        for sp, g, b in zip(specs, got, bases_ans):
+            ctx.count("c06_churned_classes")
+            judge(ctx, seed, ["<%d run-time classes created, used and collected before>" % (sp[0] - mat["from"])],
+                  "Churn%d(%s,%s)%s" % (sp[0], sp[1].__name__, sp[2].__name__, sp[3]), {"answers": g, "stale": None}, b,
+                  extra="run-time-class-after-other-run-time-classes-died")
+        ctx.sample({"kind": kind, "classes": len(specs)}, cap=1)
     elif kind == "self-history":
         # the same class on other records first: the verdict on record r must not depend on which records the class
         # (its shared compiled pattern, any per-class state) has seen before.  Records: the probe set plus variants with a
